@@ -96,8 +96,8 @@ func ol(op string, a ...any) string {
 
 // ---------- the index / tree consistency oracle on a verif dump ----------
 
-// orefaConsistent: the index map of a dumped OrefaFS names exactly the paths of the tree below the root, with the same
-// nodes. Returns a description of the first difference ("" when consistent).
+// orefaConsistent: the index map of a dumped OrefaFS names exactly the paths of the tree below the root (and the root
+// itself as "" and as "/"), with the same nodes. Returns a description of the first difference ("" when consistent).
 func orefaConsistent(dump string) string {
 	kids := map[string][][2]string{}
 	index := map[string]string{}
@@ -130,6 +130,7 @@ func orefaConsistent(dump string) string {
 		}
 	}
 	walk("", "0", 0)
+	tree["/"] = "0" // the root is indexed under "" (the parent of "/x") and under its own path
 	var ps []string
 	for p := range tree {
 		ps = append(ps, p)
